@@ -98,8 +98,10 @@ func (s *syncStub) HandleMessage(context.Context, drpc.Message) error { return e
 func (s *syncStub) SendRequest(context.Context, syncdeps.Request, syncdeps.ResponseCollector) error {
 	return errors.New("not used")
 }
-func (s *syncStub) QueueRequest(context.Context, syncdeps.Request) error { return errors.New("not used") }
-func (s *syncStub) CloseReceiveQueue(string) error                        { return nil }
+func (s *syncStub) QueueRequest(context.Context, syncdeps.Request) error {
+	return errors.New("not used")
+}
+func (s *syncStub) CloseReceiveQueue(string) error { return nil }
 
 func (s *syncStub) take() []*spacesyncproto.ObjectSyncMessage {
 	s.mu.Lock()
